@@ -59,6 +59,7 @@ def run(ctx: Ctx) -> None:
     # are updated per byte (rule shared with C04.10)
     from .c04 import counted_bodies
     counted_bodies(ctx, rows, [c for c in base if c.status == "ok" and not c.render_exc and not c.lift_exc], prefix="C03.6")
+    il_runs_to_end(ctx, py)
 
 
 # ---------------------------------------------------------------------------
@@ -278,3 +279,38 @@ def helper_tables(ctx: Ctx, py: PyProgram) -> None:
         if a.get(mode) != want[mode] or b.get(mode) != want[mode]:
             ctx.violation("C03.5/helper-tables", key_of(isa.OPCODES_PY, "IMemHelper", f"mode {mode}"), f"mode {mode}: render names {sorted(a.get(mode, []))}, _imem_offset reads {sorted(b.get(mode, []))}, documented {sorted(want[mode])}", isa.OPCODES_PY)
     ctx.instance("C03.5/helper-tables", "six addressing cases: render vs _imem_offset vs documented base registers", n, 6)
+
+
+def il_runs_to_end(ctx: Ctx, py: PyProgram) -> None:
+    """The range a counted operand denotes is touched completely only if the evaluator runs the lifted IL to its end: the loop over the
+    IL list in Emulator._execute_instruction_impl leaves through its own condition only - no `break`/`return` inside it (a step cap
+    truncates MVL/ADCL... with a large I and leaves X/I half-updated), and the IL index is only stepped by one or set from a label."""
+    import ast
+    from ..pyfacts import unparse
+    ctx.file_used(REPO / isa.EMU_PY)
+    fn = py.func(isa.EMU_PY, "Emulator._execute_instruction_impl")
+    loops = [w for w in ast.walk(fn) if isinstance(w, ast.While) and any(isinstance(a, ast.Attribute) and a.attr == "ils" for a in ast.walk(w.test))]
+    ctx.need(len(loops) == 1, f"_execute_instruction_impl: expected one while-loop over il.ils, found {len(loops)}")
+    lp = loops[0]
+    n = 1
+    parent = {id(c): p for p in ast.walk(lp) for c in ast.iter_child_nodes(p)}
+    for x in ast.walk(lp):
+        if isinstance(x, (ast.Break, ast.Return)):
+            # an exit nested in an inner loop of its own does not leave the IL loop
+            a = parent.get(id(x))
+            inner = False
+            while a is not None and a is not lp:
+                if isinstance(a, (ast.For, ast.While)) and isinstance(x, ast.Break):
+                    inner = True
+                a = parent.get(id(a))
+            if inner:
+                continue
+            n += 1
+            guard = parent.get(id(x))
+            while guard is not None and not isinstance(guard, ast.If):
+                guard = parent.get(id(guard))
+            cond = unparse(guard.test)[:80] if isinstance(guard, ast.If) else "unconditionally"
+            ctx.violation("C03.7/il-runs-to-end", key_of(isa.EMU_PY, "Emulator._execute_instruction_impl", "IL evaluation abandoned before the end of the list"),
+                          f"the IL evaluation loop is left by `{type(x).__name__.lower()}` when `{cond}`: a counted instruction whose I needs more IL steps than that touches only a prefix of the range "
+                          "its operands denote and leaves its pointer registers and I half-updated", f"{isa.EMU_PY}:{x.lineno}")
+    ctx.instance("C03.7/il-runs-to-end", "the IL evaluation loop of the emulator has no exit but its own end-of-list condition", n, 1)
